@@ -16,7 +16,7 @@ from ..catalogue import ENCODINGS, ENCODINGS_EXTRA, encode, sample_members, samp
 from ..core import Discard, LibError, Violation, run_property
 from ..deepsnap import deep_snapshot, first_difference
 from ..machine import Machine
-from ..util import sub_rng, tf_seconds
+from ..util import candle_core, sub_rng, tf_seconds
 
 ID = "C19"
 LEVEL = "exploration"
@@ -45,8 +45,12 @@ def plan(seed, subbatch):
         members, hexcfg = [spec], None
     else:
         tfs = [None] + ([tf, tf, world.pick_timeframe(cfg, base_s, 2.0, 12.0, allow_finer=False)] if tf else [])
-        members = sample_members(cfg, cfg.randint(1, 3), tfs, max_period=8)
         hexcfg = {}
+        if tf and sub_rng(seed, "level").random() < 0.25:
+            # the Hexital collapses to tf itself; members name the same timeframe explicitly or inherit it
+            hexcfg["timeframe"] = tf
+            tfs = [None, tf]
+        members = sample_members(cfg, cfg.randint(1, 3), tfs, max_period=8)
     n = planlib.pick_n(cfg, (1, 10), (5, 40), (20, 120))
     encs = list(ENCODINGS)
     if subbatch == "faulty":
@@ -258,6 +262,18 @@ def execute(trace, ctx=None):
                             raise Violation("manager-vs-reference", "hexital",
                                             ("timeframe" if mgr.timeframe else "default") + (":after-remove" if removed_any else ""),
                                             {"manager": name, "n_got": len(got), "n_want": len(want)})
+                    # ... and every registered MEMBER must be looking at such a list (a manager dropped from the
+                    # Hexital's registry while members still use it would no longer be fed)
+                    level = (cfg.get("hexital") or {}).get("timeframe")
+                    for sl in subj.live_slots():
+                        eff = sl.spec["common"].get("timeframe") or level
+                        got = [candle_core(c) for c in sl.ind.candles]
+                        want = ([tuple(r) for r in refmodels.resample(subj.delivered, tf_seconds(eff))] if eff
+                                else [tuple(r) for r in subj.delivered])
+                        if got != want:
+                            raise Violation("member-candles-vs-reference", "hexital",
+                                            ("timeframe" if eff else "default") + (":after-remove" if removed_any else ""),
+                                            {"member": sl.name, "n_got": len(got), "n_want": len(want)})
                 run.observe("final", a)
         if subj.subject is None:
             raise Discard("no-new-op")
